@@ -36,6 +36,34 @@ FileRec(r) ==
   [kind |-> "file", id |-> r, doc |-> FALSE, bytes |-> FileBytes(lines, r % 2 = 0), nlines |-> Len(lines), maxrun |-> MaxRun(lines),
    loaded |-> ld, ok |-> (ld = DefTexts /\ Meaning(lines) = DefTexts)]
 
+\* ---------------------------------------------------------------- files in which some definitions do not compile
+\* (FuncFileOps!LoadC: a failing definition is reported and skipped, every definition that compiles in its place is
+\* delivered).  One or two of BadDefs are written between / before / after the definitions u1..u9, in generated layouts:
+\* a misspelt helper, an unterminated and an empty statement, a call of a definition that itself failed, a call of a
+\* definition that comes later in the file, and a failing RE-definition of u1 (the first u1 stays).
+BuiltinB == {NameB(f) : f \in AllNames \ ({Defs[i].name : i \in 1..Len(Defs)} \cup {"badlive", "classifylen", "name-of-func"})}
+BadDefs == <<
+  [name |-> <<122, 122, 49>>, body |-> <<123, 115, 117, 109, 109, 105, 32, 123, 48, 125, 32, 49, 125>>],          \* zz1 {summi {0} 1}
+  [name |-> <<122, 122, 50>>, body |-> <<123, 115, 117, 109, 105, 32, 123, 48, 125, 32, 123, 49, 125>>],          \* zz2 {sumi {0} {1}
+  [name |-> <<122, 122, 51>>, body |-> <<97, 123, 125, 98>>],                                                      \* zz3 a{}b
+  [name |-> <<122, 122, 52>>, body |-> <<123, 122, 122, 49, 32, 123, 48, 125, 125>>],                              \* zz4 {zz1 {0}}
+  [name |-> <<122, 122, 53>>, body |-> <<123, 117, 57, 32, 123, 48, 125, 32, 49, 125>>],   \* zz5 {u9 {0} 1}   (u9 comes later in the file)
+  [name |-> <<117, 49>>, body |-> <<123, 115, 117, 109, 105, 32, 123, 48, 125, 125, 123>>] >>                      \* u1 {sumi {0}}{
+NBad == IF Thorough THEN 72 ELSE 18
+PutAfter(sq, k, x) == SubSeq(sq, 1, k) \o <<x>> \o SubSeq(sq, k + 1, Len(sq))      \* x after the first k elements
+BadDs(r) ==
+  LET b == 1 + (r % Len(BadDefs))
+      n == Len(DefTexts)
+      k == IF b = 6 THEN 1 + ((r \div 6) % n) ELSE IF b = 5 THEN ((r \div 6) % (n - 1)) ELSE (r \div 6 + r) % (n + 1)
+      one == PutAfter(DefTexts, k, BadDefs[b])
+  IN IF b = 4 THEN PutAfter(one, 0, BadDefs[1]) ELSE IF r % 4 = 3 THEN PutAfter(one, Len(one), BadDefs[2]) ELSE one
+BadLines(r) == LET ds == BadDs(r) IN LayFile(ds, [i \in 1..Len(ds) |-> StyleAt((r * 11 + i * 41) % 2304)], 1)
+FileBadRec(r) ==
+  LET lines == BadLines(r)  ld == LoadC(lines, BuiltinB) IN
+  [kind |-> "file", id |-> 200000 + r, doc |-> FALSE, bad |-> TRUE, bytes |-> FileBytes(lines, r % 2 = 0), nlines |-> Len(lines), maxrun |-> MaxRun(lines),
+   loaded |-> ld, nfail |-> Len(Load(lines)) - Len(ld),
+   ok |-> (ld = DefTexts /\ Len(Load(lines)) > Len(ld) /\ Meaning(lines) = BadDs(r))]
+
 \* ---------------------------------------------------------------- the documentation's example
 W5 == <<53>>
 W15 == <<49, 53>>
@@ -81,15 +109,17 @@ VecRec(g, t, sty, ctxs, defs) ==
    sub |-> IF IsUdfCallIn(t, defs) /\ RoundTrip(st, sty) THEN TextS(st, sty) ELSE <<>>,
    cases |-> [i \in 1..Len(ctxs) |-> [m |-> ctxs[i].g, ks |-> ctxs[i].keys, e |-> Enc(ValT(t, ctxs[i], ClkSym, defs))]]]
 
-GenGroups == Groups \cup {<<"files", "">>, <<"doc", "">>, <<"meta", "">>}
+GenGroups == Groups \cup {<<"badfiles", "">>, <<"files", "">>, <<"doc", "">>, <<"meta", "">>}
 GenItems(g) ==
   CASE g[1] = "files" -> {T1(Grp(r)) : r \in 0..(NFiles - 1)}
+    [] g[1] = "badfiles" -> {T1(Grp(r)) : r \in 0..(NBad - 1)}
     [] g[1] = "doc" -> DocTrees \cup {T1(Grp(100000))}
     [] g[1] = "meta" -> {T1(Grp(0))}
     [] OTHER -> Trees(g)
 
 Rec(cc) ==
   CASE cc.g[1] = "files" -> FileRec(cc.t[1].n)
+    [] cc.g[1] = "badfiles" -> FileBadRec(cc.t[1].n)
     [] cc.g[1] = "meta" -> [kind |-> "defs", defs |-> DefTexts, docdefs |-> DocMeaning]
     [] cc.g[1] = "doc" -> IF cc.t = T1(Grp(100000)) THEN DocFileRec ELSE VecRec(cc.g, cc.t, DefSty, DocCtx, DocDefs)
     [] cc.g[1] \in EscKinds -> VecRec(cc.g, cc.t, cc.sty, SetToSeq(CtxEsc), Defs)
